@@ -25,7 +25,8 @@ LEVEL_TEXT = ("Every non-empty ordered supported list of length <=3 over a 6-ver
               ' Also timeout-then-retry sequences with a late answer to the abandoned attempt.'
               ' Every case also runs under the dependency-free validation backend.'
               ' Also handshake histories on ONE list object edited in place between calls (against an echoing server), and every entry point of the library that takes supported_versions, found by signature.'
-              " Also a write stream that stalls (for longer than the handshake's patience) on the initialized notification, and every entry point that takes supported_versions, found by signature.")
+              " Also a write stream that stalls (for longer than the handshake's patience) on the initialized notification, and every entry point that takes supported_versions, found by signature."
+              " Also error answers that carry the server's own version list in error.data, from a server that answers a re-sent initialize with a version the caller never offered.")
 LEVEL_NOTE = ("Trusted: virtual loop, recording proxies; 'belongs to that version' for batching uses the independent date "
               "rule (older than 2025-06-18). Malformed results may raise any exception (the statement demands the "
               "version-mismatch error only for a well-formed different version).")
